@@ -38,6 +38,7 @@ type Restrict struct {
 	NoMetadata  bool
 	SmallValues bool // keep objects small (used by enumeration checks)
 	NoImages    bool // no pre-encoded DCT / JBIG2 / CCITTFax streams
+	Bulk        bool // now and then a program writes thousands of small objects
 }
 
 // Config is the drawn configuration.
@@ -202,6 +203,37 @@ func (x *exec) opts() *gen.Opts {
 	return &gen.Opts{Refs: x.all, MaxDepth: d, SafeText: x.r.SafeText}
 }
 
+// takeStreamRef is takeRef for stream objects: now and then the stream is
+// written under a caller-chosen reference with a non-zero generation.
+func (x *exec) takeStreamRef(lbl string) pdf.Reference {
+	if x.t.Bool(lbl+".explicit", 1, 8) {
+		x.res.Probes["stream under an explicit reference"]++
+		return x.explicitRef(lbl + ".x")
+	}
+	return x.takeRef(lbl)
+}
+
+// explicitRef returns an object number beyond what Alloc has handed out,
+// possibly with a non-zero generation.
+func (x *exec) explicitRef(lbl string) pdf.Reference {
+	x.next += 1 + uint32(x.t.Draw(lbl+".gap", 40))
+	num := 200 + x.next
+	genNo := uint16(0)
+	if x.t.Bool(lbl+".gen", 1, 2) {
+		genNo = uint16(tape.Pick(x.t, lbl+".genv", 1, 2, 255, 65534, 300))
+	}
+	// the number must not have been handed out by Alloc already
+	probe := x.w.Alloc()
+	x.free = append(x.free, probe)
+	x.all = append(x.all, probe)
+	if num <= probe.Number() {
+		num = probe.Number() + 1 + uint32(x.t.Draw(lbl+".gap2", 5))
+	}
+	ref := pdf.NewReference(num, genNo)
+	x.all = append(x.all, ref)
+	return ref
+}
+
 func (x *exec) takeRef(lbl string) pdf.Reference {
 	if len(x.free) > 0 && x.t.Bool(lbl+".usefree", 2, 3) {
 		i := x.t.Draw(lbl+".free", len(x.free))
@@ -279,7 +311,16 @@ func (x *exec) run(sink io.Writer) {
 	if t.Bool("info", 1, 2) {
 		x.setInfo()
 	}
+	bulkAt := -1
+	if x.r.Bulk && t.Bool("bulk", 1, 150) {
+		// thousands of small objects of irregular size: cross-reference data
+		// beyond one buffer (1024 bytes of compressed xref stream and more)
+		bulkAt = t.Draw("bulk.at", nOps)
+	}
 	for i := 0; i < nOps && res.Err == nil; i++ {
+		if i == bulkAt {
+			x.opBulk()
+		}
 		x.op()
 	}
 	if res.Err != nil {
@@ -404,25 +445,32 @@ func (x *exec) opPut() {
 	x.record(ref, &Expect{Obj: snap, How: "put"})
 }
 
+func (x *exec) opBulk() {
+	n := tape.Pick(x.t, "bulk.n", 400, 2500, 6000)
+	st := x.t.Sub("bulk.rand")
+	x.res.OpNames = append(x.res.OpNames, fmt.Sprintf("bulk %d", n))
+	x.res.Probes["bulk program"]++
+	for i := 0; i < n; i++ {
+		ref := x.w.Alloc()
+		var obj pdf.Object
+		switch st.Intn(3) {
+		case 0:
+			obj = pdf.Integer(st.Intn(1 << uint(1+st.Intn(30))))
+		case 1:
+			obj = pdf.String(bytes.Repeat([]byte{'a' + byte(st.Intn(26))}, st.Intn(40)))
+		default:
+			obj = pdf.Array{pdf.Integer(i), pdf.Name(fmt.Sprintf("N%d", st.Intn(1000)))}
+		}
+		if x.fail("Put(bulk)", x.w.Put(ref, obj)) {
+			return
+		}
+		x.record(ref, &Expect{Obj: gen.Clone(obj), How: "bulk"})
+	}
+}
+
 func (x *exec) opPutExplicit() {
 	lbl := x.label("putx")
-	// an explicit object number beyond what Alloc has handed out, possibly
-	// with a non-zero generation
-	x.next += 1 + uint32(x.t.Draw(lbl+".gap", 40))
-	num := 200 + x.next
-	genNo := uint16(0)
-	if x.t.Bool(lbl+".gen", 1, 2) {
-		genNo = uint16(tape.Pick(x.t, lbl+".genv", 1, 2, 255, 65534, 300))
-	}
-	// the number must not have been handed out by Alloc already
-	probe := x.w.Alloc()
-	x.free = append(x.free, probe)
-	x.all = append(x.all, probe)
-	if num <= probe.Number() {
-		num = probe.Number() + 1 + uint32(x.t.Draw(lbl+".gap2", 5))
-	}
-	ref := pdf.NewReference(num, genNo)
-	x.all = append(x.all, ref)
+	ref := x.explicitRef(lbl)
 	obj := gen.TopLevel(x.t, lbl+".obj", x.opts())
 	snap := x.snapshot("put", obj)
 	x.res.OpNames = append(x.res.OpNames, fmt.Sprintf("put %d %d", ref.Number(), ref.Generation()))
@@ -522,7 +570,7 @@ func (*nopCloserBuf) Close() error { return nil }
 
 func (x *exec) opPutStream() {
 	lbl := x.label("putstm")
-	ref := x.takeRef(lbl)
+	ref := x.takeStreamRef(lbl)
 	dict := x.streamDict(lbl)
 	if !x.r.SafeText && !x.r.NoImages && x.t.Bool(lbl+".image", 1, 5) {
 		if name, parms, raw, decoded, ok := imageStream(x.t, lbl+".img", x.cfg.Version); ok {
@@ -657,7 +705,7 @@ func drawFilters(t *tape.Tape, lbl string, v pdf.Version) (filters []pdf.Filter,
 func (x *exec) opOpenStream() {
 	lbl := x.label("open")
 	t := x.t
-	ref := x.takeRef(lbl)
+	ref := x.takeStreamRef(lbl)
 	dict := x.streamDict(lbl)
 	filters, names, rowBytes := drawFilters(t, lbl, x.cfg.Version)
 	body := gen.Body(t, lbl+".body", x.maxBody(), x.r.SafeText)
